@@ -3,29 +3,42 @@ VARIANT = "san"
 GEN = ["Api"]
 RULE = "see stats"
 PARTIAL = [
-    "`failed_legalize_unchanged` (a legalization that failed left the placement exactly as it was) is a theorem of the "
-    "legalizer model (C01's builder: DetailedPlacer::legalize exports only after Legalizer::run returned); here it is "
-    "covered by the direct oracle only (infeasible circuits: placement and every member compared before/after).",
+    "`failed_legalize_leaves_placement` (third clause) is C01's `failed_legalize_unchanged` restated: a theorem about the "
+    "legalization model `legalizeWith`/`legalizeInPlace` that drv_C01 executes against Circuit::legalize (the model returns the "
+    "input circuit on every error: parameter check, Tetris/Abacus failure, unplaced cell — all raised before exportPlacement). "
+    "That the C++ really raises every failure before it exports is the tie: C01's correspondence plus, here, the direct oracle on "
+    "infeasible circuits (too dense; one unplaceable cell of 8 kinds between movable off-grid cells of lower and higher index; "
+    "legalize and the legalization step of placeDetailed): placement and every member compared before/after.  The failing "
+    "legalization inside placeDetailed is covered by the oracle and by C19's `rejected_before_work`/entry-point IR "
+    "(DetailedPlacer::place starts with DetailedPlacer::legalize), not by a separate theorem.",
     "'the circuit is internally consistent' after a call is checked by the oracle (Circuit::check() + all structural "
     "setters accepted + a further placement call); the IR abstracts the circuit to its write history, so consistency of "
     "the member vectors is not a theorem.",
-    "The theorems cover callbacks that invoke Circuit setters and/or throw.  A callback that re-enters a placement call on "
-    "the same circuit is outside the modelled traces (after the inner call returns the flag is clear although the outer "
-    "call is still running); not exercised by the harness either.",
+    "Nested placement calls (a callback calling placeGlobal/legalize/placeDetailed on the same circuit) are inside the modelled "
+    "traces, to any depth: `busy_in_every_callback`, `nested_call_keeps_busy`, `placement_runs_stage_busy` need the re-entrant "
+    "guard (fixes/c10-inuse-guard-reentrant.diff); on a tree whose guard clears the flag unconditionally these three theorems "
+    "fail to build and the oracle reports the concrete input (known pre-fix shape: Model/LegacyBusy.lean "
+    "`nested_call_releases_outer_flag`).  What a nested call does to the *placement result* of the outer call is outside C10.",
     "That the placers only mutate the circuit through the translated statements (no other writer of isInUse_) rests on "
     "the translator's member scan of src/coloquinte.cpp: every non-const void method of Circuit must be in its list.",
 ]
 ASSUMPTIONS = [
-    "the stage (GlobalPlacer::place, DetailedPlacer::legalize/place) is modelled as an arbitrary trace of callbacks, each "
-    "running any setters with any arguments and possibly throwing, and may itself throw after any prefix; it does not touch "
-    "isInUse_ (grep: the flag is written only in Circuit's constructor and the scope guard)",
-    "C++ exception semantics of a local object's destructor (stack unwinding) as modelled by `scopeGuard`",
+    "the stage (GlobalPlacer::place, DetailedPlacer::legalize/place) is modelled as an arbitrary trace (Model/Busy.lean `Tr`) of "
+    "callbacks, each running any setters with any arguments and any nested placement calls (whose stage is again an arbitrary "
+    "trace) and possibly throwing, and may itself throw after any prefix; it does not touch isInUse_ (grep: the flag is written "
+    "only in Circuit's constructor and the scope guard)",
+    "C++ exception semantics of a local object's destructor (stack unwinding) as modelled by `scopeGuard` (destructor clears) / "
+    "`restoreGuard` (destructor restores the value saved by the constructor)",
 ]
 LEVEL_TEXT = ("Lean 4 theorems over the statement skeletons of the seven structural setters and the three placement calls, "
               "regenerated from src/coloquinte.cpp by tools/gen/Api.py on every run, under an operational semantics with "
-              "exceptions and scope guards (all callback traces, all throw points, all arguments); the semantics is tied to "
+              "exceptions and scope guards (all callback traces incl. nested placement calls to any depth, all throw points, all "
+              "arguments) + C01's theorem that a failed legalization returns the input circuit; the semantics is tied to "
               "the code by replaying every observed trace (callback throwing at every index of every stage, invalid "
-              "parameters, infeasible legalization) through the model and diffing setter outcomes and the in-use flag")
+              "parameters, infeasible legalization, nested calls from every callback index) through the model and diffing setter "
+              "outcomes and the in-use flag after every call, nested or not; direct oracle incl. all members compared after "
+              "failed legalizations of nine infeasible shapes")
 LEVEL_NOTE = ("Trusted: Lean kernel (axioms propext/Classical.choice/Quot.sound), tools/gen/Api.py + clang-14 AST (the "
-              "translation of the setter bodies and of the RAII guard class), the abstraction of a stage to a callback trace.")
+              "translation of the setter bodies and of the RAII guard class: clearing -> scopeGuard, saving/restoring -> "
+              "restoreGuard, anything else is an error), the abstraction of a stage to a trace; third clause: C01's model tie.")
 TECHNIQUE = "Lean 4 proof over translated IR (decidable syntactic conditions + generic semantic lemmas) + trace correspondence"
